@@ -107,6 +107,8 @@ theorem cmdTail_of_sep (t : Track) (cmd : Cmd) (hn : LCmdNums t cmd) (ts : List 
   | measure n => exact numEnd_sepHead _ (hb n) _ hsh
   | shuffle n => exact numEnd_sepHead _ (hb n) _ hsh
   | drum n => exact numEnd_sepHead _ (hb n) _ hsh
+  | revRest d => exact hdur d
+  | grace l a d => exact ⟨hdur d, fun _ => hhead d hn.1⟩
   | simple sm n =>
     cases n with
     | some n => exact numEnd_sepHead _ (hb n) _ hsh
